@@ -46,8 +46,10 @@ FOREIGN = ['!', '#', '@', '{', '}', '[', ']', '~', '?', '=', '==', ':', '\\', '`
 
 ISA = {
     'general': {'address_size': 16, 'endian': 'little', 'registers': ['a']},
-    'operand_sets': {},
-    'instructions': {'nop': {'bytecode': {'value': 0, 'size': 8}}},
+    'operand_sets': {'q': {'operand_values': {'v': {'type': 'numeric', 'argument': {'size': 64, 'byte_align': True}}}}},
+    'instructions': {'nop': {'bytecode': {'value': 0, 'size': 8}},
+                     'ldv': {'bytecode': {'value': 0xA5, 'size': 8},
+                             'operands': {'count': 1, 'operand_sets': {'list': ['q']}}}},
 }
 ISA_TEXT = json.dumps(ISA)
 
@@ -152,11 +154,15 @@ def _run_cli(text, form):
         lines += [f'v_res = {text}', '.8byte v_res']
     elif form == 2:
         lines.append(f'.8byte 0 + ({text})')
+    elif form == 5:
+        lines.append(f'ldv {text}')      # as the operand of an instruction
     else:
         lines += [f'v_res = {text}', '.8byte v_res']
     src = '\n'.join(lines) + '\n'
     res = runner.run_forked(['compile', '-c', 'isa.json', '-o', 'out.bin', 'p.asm'],
                             {'isa.json': ISA_TEXT, 'p.asm': src})
+    if form == 5 and res.klass == 'accepted' and len(res.outputs.get('out.bin', b'')) == 9 and res.outputs['out.bin'][0] == 0xA5:
+        return ('value', int.from_bytes(res.outputs['out.bin'][1:], 'little')), src, res
     if res.klass == 'accepted' and 'out.bin' in res.outputs and len(res.outputs['out.bin']) == 8:
         return ('value', int.from_bytes(res.outputs['out.bin'], 'little')), src, res
     if res.klass == 'accepted':
@@ -190,7 +196,13 @@ def execute(case, ctx):
             cmpwant = True
             classes.append('evaluated-in-a-condition')
         else:
-            got, src, res = _run_cli(text, case['form'])
+            form = case['form']
+            if form >= 3:
+                # as an instruction operand where the value fits its 64-bit field, else as a constant
+                form = 5 if -(1 << 63) <= want < (1 << 64) and text.strip() else 1
+                if form == 5:
+                    classes.append('evaluated-as-instruction-operand')
+            got, src, res = _run_cli(text, form)
             detail = {'text': text, 'expected_mod_2_64': want % (1 << 64), 'got': list(got), 'source': src,
                       'run': res.brief()}
             cmpwant = want % (1 << 64)
